@@ -7,7 +7,10 @@ from ..inv import seeds_check, bijection_check
 
 ID = "C01"
 LEVEL = "model_checking"
-STRATS = ["build", "block", "bfs", "dfs", "scc", "aseeds"]
+STRATS = ["build", "block", "bfs", "dfs", "scc", "aseeds", "dfs+cand"]
+# "dfs+cand": complete DFS expansion, then the unrefined candidate list of every node is requested
+# (greedy_asp_minification=False, simulation_minification=False) before the seeds: the other public route by which
+# node_attractor_candidates may publish seeds (wave-4 change C01-w4-1).
 
 
 def universes(tier, seed):
@@ -66,7 +69,10 @@ def plan(tier, seed):
 def check_case(net, strat):
     """returns list of (oracle, detail)"""
     sd = new_sd(net)
-    sd, ret = apply(sd, COMPLETE_STRATEGIES[strat])
+    sd, ret = apply(sd, COMPLETE_STRATEGIES[strat.split("+")[0]])
+    if strat.endswith("+cand"):
+        for i in list(sd.expanded_ids()):
+            sd.node_attractor_candidates(i, compute=True, greedy_asp_minification=False, simulation_minification=False)
     if strat != "build" and ret is not True:
         return [("strategy-did-not-complete", f"{strat} returned {ret}")], None
     seeds = sd.expanded_attractor_seeds()
